@@ -41,6 +41,9 @@ func applyWrite(content []byte, op vos.Op, n int) []byte {
 type Options struct {
 	EarlyDirent bool // pessimistic model: directory entries durable at creation
 	Torn        bool
+	// Holes: un-fsynced writes of one file may reach the disk out of order (page cache write-back has no order):
+	// besides every prefix, every "prefix with one earlier write missing" is enumerated
+	Holes bool
 	MaxPerPoint int
 	// Base: durable content present before the first journal operation (repeated crashes: the image the
 	// recovery run started from)
@@ -139,18 +142,26 @@ func applyOp(content []byte, op vos.Op, n int) []byte {
 type choice struct {
 	n    int // number of pending writes fully applied
 	torn int // bytes of the next one applied (0 = none)
+	hole int // 1 + index of one earlier pending write that did NOT reach the disk although later ones did (0 = none)
 }
 
 func choicesFor(f *fileState, o Options) []choice {
 	var cs []choice
 	for n := len(f.pending); n >= 0; n-- { // all applied first (process kill), then shorter prefixes
-		cs = append(cs, choice{n, 0})
+		cs = append(cs, choice{n, 0, 0})
+		if o.Holes {
+			for j := 0; j+1 < n; j++ {
+				if f.pending[j].Kind == "write" {
+					cs = append(cs, choice{n, 0, j + 1})
+				}
+			}
+		}
 		if o.Torn && n < len(f.pending) && f.pending[n].Kind == "write" && len(f.pending[n].Data) > 1 {
 			l := len(f.pending[n].Data)
-			cs = append(cs, choice{n, l / 2})
+			cs = append(cs, choice{n, l / 2, 0})
 			for b := 512; b < l; b += 512 {
 				if b != l/2 {
-					cs = append(cs, choice{n, b})
+					cs = append(cs, choice{n, b, 0})
 				}
 			}
 		}
@@ -203,7 +214,7 @@ func Enumerate(ops []vos.Op, o Options, seen map[[32]byte]bool, visit func(img *
 		total := 1
 		for _, p := range names {
 			f := files[p]
-			cs := []choice{{0, 0}}
+			cs := []choice{{0, 0, 0}}
 			if !f.isDir && f.exists {
 				cs = choicesFor(f, o)
 			}
@@ -239,6 +250,9 @@ func Enumerate(ops []vos.Op, o Options, seen map[[32]byte]bool, visit func(img *
 				c := lists[i][idx[i]]
 				content := append([]byte{}, f.durable...)
 				for j := 0; j < c.n; j++ {
+					if j+1 == c.hole {
+						continue
+					}
 					content = applyOp(content, f.pending[j], -1)
 				}
 				if c.torn > 0 {
@@ -248,7 +262,11 @@ func Enumerate(ops []vos.Op, o Options, seen map[[32]byte]bool, visit func(img *
 				h.Write([]byte("F" + p))
 				h.Write(content)
 				if len(f.pending) > 0 {
-					img.Desc += fmt.Sprintf("%s:%d/%d+%d ", filepath.Base(filepath.Dir(p))+"/"+filepath.Base(p), c.n, len(f.pending), c.torn)
+					hole := ""
+					if c.hole > 0 {
+						hole = fmt.Sprintf("-w%d", c.hole-1)
+					}
+					img.Desc += fmt.Sprintf("%s:%d/%d+%d%s ", filepath.Base(filepath.Dir(p))+"/"+filepath.Base(p), c.n, len(f.pending), c.torn, hole)
 				}
 			}
 			h.Write([]byte(strings.Join(marks, "|")))
